@@ -22,7 +22,9 @@ RULE = ("harness c12: (i) formula records 120xx/121xx: every translated public *
         "mode), cmux / cmux_assign / cmux_assign_neg, fhe_uint preparation (prepare_custom and prepare_custom_multi_thread with 1..3 "
         "threads on exactly threads * fhe_uint_prepare_tmp_bytes bytes). Modelled with take trees since the deepening: LWE key-switch and "
         "LWE<->GLWE conversions, glwe_pack, GGSW key-switch / automorphism / expansion, tensor relinearize / square, the nine key / "
-        "matrix encryption routines and the seven seeded (compressed) encryptions. "
+        "matrix encryption routines, the seven seeded (compressed) encryptions, the cmux family and the FheUint two-word operations through "
+        "their _multi_thread entry point (add and slt at the crate's test parameter set, threads in {1,2,3,4,5,8,9,12,16,17,31,32,33}, scratch of "
+        "exactly <op>_multi_thread_tmp_bytes bytes; the executor's threads x per-thread split is a take tree, the worker body a theorem). "
         "distinct = distinct (op, backend, shape)")
 ASSUMPTIONS = [
     "take trees are hand transcriptions of the Rust control flow; they are tied to the implementation by the exact-window "
@@ -57,7 +59,7 @@ OPN = {1: "vec_znx_normalize", 2: "vec_znx_normalize_assign", 3: "vec_znx_rsh", 
        171: "ckks_add_pt_vec_znx", 172: "ckks_neg", 173: "ckks_align", 174: "ckks_sub", 175: "ckks_mul_add_ct",
        176: "ckks_mul_sub_ct", 177: "ckks_dot_product_ct", 178: "ckks_mul_many", 179: "ckks_add_many",
        180: "blind_rotation_key_encrypt_sk", 181: "blind_rotation_key_prepare", 182: "blind_rotation_execute",
-       183: "circuit_bootstrapping_execute", 184: "cmux", 185: "fhe_uint_prepare_custom", 186: "fhe_uint_prepare_custom_multi_thread",
+       183: "circuit_bootstrapping_execute", 184: "cmux", 185: "fhe_uint_prepare_custom", 186: "fhe_uint_prepare_custom_multi_thread", 187: "fhe_uint_2w_to_1w_multi_thread",
        190: "glwe_compressed_encrypt_sk", 191: "gglwe_compressed_encrypt_sk", 192: "ggsw_compressed_encrypt_sk",
        193: "glwe_switching_key_compressed_encrypt_sk", 194: "glwe_automorphism_key_compressed_encrypt_sk",
        195: "glwe_tensor_key_compressed_encrypt_sk", 196: "gglwe_to_ggsw_key_compressed_encrypt_sk"}
